@@ -4,6 +4,7 @@ import (
 	"fmt"
 	"math/big"
 	"os"
+	"sort"
 	"strings"
 	"time"
 
@@ -505,6 +506,20 @@ func (g *Gen) genSend() *eng.Tx {
 	if g.hostile() && g.chance(0.15) {
 		m.Recipient = strings.ToUpper(m.Sender) // a send to oneself under another spelling of the address
 	}
+	if g.chance(0.3) {
+		// aim at a row another module also writes: a recipient with escrowed credits (open sell orders)
+		// or a retired balance in the very batch that is sent
+		var cands []string
+		for k, bal := range g.V.Balances {
+			if k.BatchKey == h.Row.BatchKey && k.Addr != owner && bal.E != nil && bal.E.Sign() > 0 {
+				cands = append(cands, k.Addr)
+			}
+		}
+		if len(cands) > 0 {
+			sort.Strings(cands)
+			m.Recipient = cands[g.R.Intn(len(cands))]
+		}
+	}
 	n := 1 + g.R.Intn(2)
 	for i := 0; i < n; i++ {
 		c := &basetypes.MsgSend_SendCredits{BatchDenom: g.batchDenom(b)}
@@ -734,6 +749,32 @@ func (g *Gen) genBridge() *eng.Tx {
 	if cr == nil {
 		return nil
 	}
+	if g.chance(0.3) {
+		// longer lists over the owner's holdings, with repeated denoms and with bound and unbound
+		// batches in any order (every entry must be checked, wherever it stands)
+		var hs []*obs.Bal
+		for k, bal := range g.V.Balances {
+			if k.Addr == owner && bal.T != nil && bal.T.Sign() > 0 {
+				hs = append(hs, bal)
+			}
+		}
+		sort.Slice(hs, func(i, j int) bool { return hs[i].Row.BatchKey < hs[j].Row.BatchKey })
+		if len(hs) > 0 {
+			g.quiet = true
+			cr = cr[:1]
+			n := 2 + g.R.Intn(3)
+			for i := 0; i < n; i++ {
+				x := hs[g.R.Intn(len(hs))]
+				if i == 0 && g.chance(0.6) {
+					x = h // the first entry's batch again
+				}
+				if b := g.V.Batches[x.Row.BatchKey]; b != nil {
+					cr = append(cr, &basetypes.Credits{BatchDenom: b.Denom, Amount: g.amountUpTo(new(big.Rat).Quo(x.T, big.NewRat(8, 1)))})
+				}
+			}
+			g.quiet = false
+		}
+	}
 	return tx(&basetypes.MsgBridge{Owner: g.owner(owner), Target: sources[g.R.Intn(len(sources))], Recipient: ethAddr(g.R.Intn(100)), Credits: cr})
 }
 
@@ -938,11 +979,24 @@ func (g *Gen) genBridgeReceiveBound() *eng.Tx {
 		return nil
 	}
 	bc := g.V.Contracts[g.R.Intn(len(g.V.Contracts))]
-	for i := 0; i < 6; i++ {
+	// prefer a sealed batch (the receipt must be refused) or an open batch that already has cancelled
+	// or retired supply (the receipt rewrites a supply row whose other columns are non-zero)
+	wantSealed := g.chance(0.5)
+	for i := 0; i < 8; i++ {
 		c := g.V.Contracts[g.R.Intn(len(g.V.Contracts))]
-		if b := g.V.Batches[c.BatchKey]; b != nil && !b.Open {
+		b := g.V.Batches[c.BatchKey]
+		if b == nil {
+			continue
+		}
+		if wantSealed && !b.Open {
 			bc = c
 			break
+		}
+		if !wantSealed && b.Open {
+			if sp := g.V.Supplies[b.Key]; sp != nil && sp.C != nil && sp.C.Sign() > 0 {
+				bc = c
+				break
+			}
 		}
 	}
 	b := g.V.Batches[bc.BatchKey]
